@@ -109,8 +109,35 @@ def _build_case(rng):
             "k_b": rng.randint(0, 1 << 26), "items": _items(rng), "poke": poke}
 
 
+WRAPS = ["block", "scope", "if", "else", "loop", "macro", "loop-in-macro", "block-in-loop", "include-in-loop"]
+
+
+def _build_wrapped(rng):
+    """one directive inside a body that is expanded once or several times: every expansion emits the directive's bytes,
+    and the names an .incbin defines belong to the expansion they are in"""
+    rom = rng.choice(["low", "high"])
+    model = busmodel.builtin(rom)
+    r = model.rom_ranges()[0]
+    bank = r.first + rng.randint(0, 8)
+    off = rng.choice([r.win_lo, r.win_hi - rng.randint(0, 40), rng.randint(r.win_lo, r.win_hi)])
+    d = rng.choice(["db", "dw", "dl", "pointer", "ascii", "incbin", "incbin"])
+    case = {"t": "wrapped", "rom": rom, "org": (bank << 16) | off, "wrap": rng.choice(WRAPS), "d": d, "reps": rng.choice([1, 2, 2, 3, 5]),
+            "base": rng.choice([0, 1, 0xFE, 0xFFFE, 0x12345, 0xFFFFFF]), "step": rng.choice([1, 0x101, 0x10000, -1]), "n": rng.choice([1, 2, 5])}
+    if d == "ascii":
+        case["s"] = "".join(rng.choice(ASCII_ALPHABET) for _ in range(rng.randint(1, 20)))
+    if d == "incbin":
+        ln = rng.choice([0, 1, 2, 3, 255, 256, rng.randint(0, 300), rng.randint(0, 40000)])
+        case["f"] = rng.choice(["blob.bin", "sub/blob.dat"])
+        case["spec"] = {"pat": [rng.randint(0, 250), ln]}
+    return case
+
+
+def _build_any(rng):
+    return _build_wrapped(rng) if rng.random() < 0.1 else _build_case(rng)
+
+
 def strategy(tier):
-    return gen.seeded(_build_case)
+    return gen.seeded(_build_any)
 
 
 def hyp_examples(tier):
@@ -134,7 +161,94 @@ def _size(item) -> int:
     return len(driver.file_bytes(item["spec"]))
 
 
+def _run_wrapped(case) -> Outcome:
+    rom, org, wrap, d, reps = case["rom"], case["org"], case["wrap"], case["d"], case["reps"]
+    model = busmodel.builtin(rom)
+    repeated = wrap in ("loop", "macro", "loop-in-macro", "block-in-loop", "include-in-loop")
+    if not repeated:
+        reps = 1
+    var = {"loop": "i_w", "macro": "p_w", "loop-in-macro": "i_w", "block-in-loop": "i_w", "include-in-loop": "i_w"}.get(wrap)
+    files = {}
+    # ---- the body ------------------------------------------------------------------------------------
+    if d in WIDTH:
+        cells = [f"0x{case['base']:x} + {j}" + (f" + {var} * {case['step']}" if var else "") for j in range(case["n"])]
+        body = [f".{d} " + ", ".join(cells)]
+    elif d == "ascii":
+        body = [f".ascii '{case['s']}'"]
+    else:
+        files[case["f"]] = case["spec"]
+        body = [f".incbin '{case['f']}'"]
+    body += ["lb_in:", ".dl lb_in"]
+    if d == "incbin":
+        sym = case["f"].replace("/", "_").replace(".", "_")
+        body += [f".dl {sym}, {sym}__size"]
+    # ---- the wrapper ---------------------------------------------------------------------------------
+    B = "\n".join(body) + "\n"
+    if wrap == "block":
+        text = "{\n" + B + "}\n"
+    elif wrap == "scope":
+        text = ".scope sc_w {\n" + B + "}\n"
+    elif wrap == "if":
+        text = ".if 1 {\n" + B + "}\n"
+    elif wrap == "else":
+        text = ".if 0 {\n.db 0xEE\n} else {\n" + B + "}\n"
+    elif wrap == "loop":
+        text = f".for i_w := 0, {reps} {{\n" + B + "}\n"
+    elif wrap == "macro":
+        text = ".macro m_w(p_w) {\n" + B + "}\n" + "".join(f"m_w({k})\n" for k in range(reps))
+    elif wrap == "loop-in-macro":
+        text = f".macro m_w(p_n) {{\n.for i_w := 0, p_n {{\n" + B + f"}}\n}}\nm_w({reps})\n"
+    elif wrap == "block-in-loop":
+        text = f".for i_w := 0, {reps} {{\n{{\n" + B + "}\n}\n"
+    else:
+        files["body.s"] = B
+        text = f".for i_w := 0, {reps} {{\n.include 'body.s'\n}}\n"
+    source = f"*=0x{org:06x}\n" + text + "lb_end:\n.dl lb_end\n"
+    # ---- expected ------------------------------------------------------------------------------------
+    expected = bytearray()
+    a = org
+    room = model.room(org)
+    for k in range(reps):
+        start = a
+        if d in WIDTH:
+            w = WIDTH[d]
+            data = b"".join(((case["base"] + j + (k * case["step"] if var else 0)) & ((1 << (8 * w)) - 1)).to_bytes(w, "little") for j in range(case["n"]))
+        elif d == "ascii":
+            data = case["s"].encode("ascii")
+        else:
+            data = driver.file_bytes(case["spec"])
+        if len(expected) + len(data) + 12 >= room:
+            return Outcome(skip="program would run past the mapped range")
+        expected += data
+        a = model.advance(a, len(data))
+        expected += a.to_bytes(3, "little")
+        a = model.advance(a, 3)
+        if d == "incbin":
+            expected += start.to_bytes(3, "little") + (len(data) & 0xFFFFFF).to_bytes(3, "little")
+            a = model.advance(a, 6)
+    lb_end = a
+    expected += a.to_bytes(3, "little")
+    out = Outcome(evals=1, nontrivial=True, labels=[f"rom:{rom}", "wrapped", f"wrap:{wrap}", "dir:" + d] + (["incbin"] if d == "incbin" else []))
+    out.sample = {"rom": rom, "source": source.splitlines()[:16], "files": {f: v for f, v in files.items() if not isinstance(v, str)}}
+    res = driver.assemble_mem(source, rom=rom, files=files)
+    if not res.accepted:
+        return out.bad(f"wrapped:rejected:{wrap}:{res['exc'] or 'error'}@{res['frame']}", case, f"valid data program rejected: {res['status']} {res['exc']} {res.failure_text[:300]}\n{source[:600]}")
+    got = driver.flatten(res["blocks"])
+    phys0 = model.physical(org)
+    want = [(phys0 + i, b) for i, b in enumerate(expected)]
+    if got != want:
+        idx = next((i for i, (g, w_) in enumerate(zip(got, want)) if g != w_), min(len(got), len(want)))
+        per = len(expected) // reps if reps else 0
+        out.bad(f"wrapped:{d}:{wrap}", case, f"first difference at byte #{idx} (expansion {idx // per if per else 0} of {reps}): got {got[idx] if idx < len(got) else None} "
+                f"expected {want[idx] if idx < len(want) else None} (lengths {len(got)}/{len(want)})\n{source[:700]}")
+    elif dict(res["labels"]).get("lb_end") != lb_end:
+        out.bad(f"wrapped:final-label:{wrap}", case, f"lb_end = {dict(res['labels']).get('lb_end')} expected {lb_end:#x}\n{source[:500]}")
+    return out
+
+
 def run_case(case) -> Outcome:
+    if case.get("t") == "wrapped":
+        return _run_wrapped(case)
     _CONV[0] = "verbatim"
     out = _run_case(case)
     if out.violations and any(it["d"] == "ascii" and "\\'" in it["s"] for it in case["items"]):
